@@ -254,10 +254,9 @@ def _check(case):
                 if abs(m - v) <= tol * v:
                     return v
             return m
+        # Poisson mode: every entry is a POISSON draw with the amount as mean, whatever its size (a normal draw, floored
+        # or not, is not one: the mean of its integer part is off by up to 1/2)
         have = Counter((canon(m), r) for m, r in plog)
-        if nlog:
-            for m, sd, r in nlog:
-                have[(canon(m), max(0.0, math.floor(r)))] += 1
         need = Counter((x[q], yi[q]) for q in range(len(x)) if x[q] > 0)
         missing = need - have
         if missing:
